@@ -81,7 +81,12 @@ def do_test(pid, names, tier, checks):
             results = meta.get('checks', {})
             for c in checks or [pid]:
                 t0 = time.time()
+                # the evidence file of the unchanged tree must not be replaced by a run on a changed tree
+                ev = VERIF / 'evidence' / f'{c}.json'
+                keep = ev.read_bytes() if ev.exists() else None
                 r = sh(f'cd {VERIF} && timeout 3000 ./check {c} --tier {tier}')
+                if keep is not None:
+                    ev.write_bytes(keep)
                 viol = [ln for ln in r.stdout.splitlines() if ln.startswith('VIOLATION')]
                 summ = [ln for ln in r.stdout.splitlines() if ln.startswith(f'[{c}]')]
                 kinds = []
